@@ -355,4 +355,22 @@ theorem PInv_reach (grow : Nat → Nat) {s : State} (r : Reach grow s) : PInv s 
   | init => exact PInv_init
   | step a _ hs ih => exact PInv_step true grow a ih hs
 
+/-- running a list of actions with `step true` stays inside `Reach` (used by `C10_run_reach`) -/
+theorem reach_of_run (grow : Nat → Nat) (acts : List Act) :
+    ∀ s0 s, Reach grow s0 → run true grow s0 acts = some s → Reach grow s := by
+  induction acts with
+  | nil => intro s0 s r h; simp [run] at h; exact h ▸ r
+  | cons a as ih =>
+    intro s0 s r h
+    simp only [run] at h
+    cases hs : step true grow s0 a with
+    | none => rw [hs] at h; cases h
+    | some s1 => rw [hs] at h; exact ih s1 s (Reach.step a r hs) h
+
+/-- in a strictly increasing list every element occurs exactly once -/
+theorem count_of_sorted {l : List Nat} (h : l.Pairwise (· < ·)) (x : Nat) :
+    l.count x = if x ∈ l then 1 else 0 := by
+  have hnd : l.Nodup := h.imp (fun hab => Nat.ne_of_lt hab)
+  exact hnd.count
+
 end FpgoVerif.C10
